@@ -23,6 +23,7 @@ type evalEnv struct {
 	bound  map[string]*Val // quantified variables
 	inOld  bool
 	depth  int
+	callee bool // a callee's contract evaluated at a call site: identifiers never resolve to the caller's locals
 }
 
 func (e *evalEnv) with(st *State) *evalEnv {
@@ -232,6 +233,13 @@ func (c *FnCtx) evIdent(x *eIdent, env *evalEnv) *Val {
 	if v, ok := c.ghosts[x.name]; ok {
 		return v
 	}
+	if env.callee || env.depth > 0 {
+		// only parameters, results, ghosts and package-level names exist in a callee's contract
+		if v := c.pkgLevelIdent(x, env); v != nil {
+			return v
+		}
+		c.efail("unknown identifier %s", x.name)
+	}
 	// inside a loop clause: the loop's own phi of that name, or the loop-invariant value the name has in the loop
 	if c.fn != nil && env.vars != nil && c.curLoop != nil {
 		for _, ins := range c.curLoop.header.Instrs {
@@ -362,6 +370,28 @@ func (c *FnCtx) evIdent(x *eIdent, env *evalEnv) *Val {
 		}
 	}
 	c.efail("unknown identifier %s", x.name)
+	return nil
+}
+
+// pkgLevelIdent resolves a package-level constant or variable of env.pkg (nil if none).
+func (c *FnCtx) pkgLevelIdent(x *eIdent, env *evalEnv) *Val {
+	if env.pkg == nil {
+		return nil
+	}
+	o := env.pkg.Scope().Lookup(x.name)
+	if o == nil {
+		return nil
+	}
+	if k, ok := o.(*types.Const); ok {
+		return c.constOf(k)
+	}
+	if g, ok := o.(*types.Var); ok {
+		if sp := c.L.prog.Package(env.pkg); sp != nil {
+			if gv, ok := sp.Members[g.Name()].(*ssa.Global); ok {
+				return c.load(c.state(env), c.mk(gv.Type(), c.globalRef(gv)))
+			}
+		}
+	}
 	return nil
 }
 
